@@ -241,6 +241,7 @@ type svcRunner struct {
 	serving    bool
 	cancel     context.CancelFunc
 	cancelled  bool // the context of the current serving call has been cancelled
+	nserved    int  // serving calls started on this object
 	nextID     int
 	nsvc       int
 	nreg       int
@@ -341,6 +342,7 @@ func (r *svcRunner) doListenPath(op sOp) bool {
 		r.cancelled = false
 		r.log.Ev("ListenStart", tr.M{"n": r.nlisten})
 		r.serving = true
+		r.nserved++
 		served := make(chan string, 1)
 		r.served = served
 		addr := r.laddr
@@ -400,6 +402,7 @@ func (r *svcRunner) do(op sOp) {
 		}
 		r.log.Ev("ServeStart", tr.M{"timeout": op.Timeout, "gate": op.Gate && r.cur != nil})
 		r.serving = true
+		r.nserved++
 		served := make(chan string, 1)
 		r.served = served
 		go func() { served <- classifyRet(r.svc.DoListen(ctx, d)) }()
@@ -626,6 +629,7 @@ func (r *svcRunner) runSchedule(ops []sOp) {
 	r.nextID = 0
 	r.pendingL, r.laddr, r.nlisten = false, "", 0
 	r.abort = false
+	r.nserved = 0
 	for _, op := range ops {
 		r.do(op)
 		if r.abort {
@@ -665,6 +669,13 @@ func (r *svcRunner) runSchedule(ops []sOp) {
 		}
 	}
 	r.log.Ev("Active", tr.M{"n": svc.VerifActiveConns()})
+	// whatever ended the serving calls (Shutdown, idle timeout, accept error): the same object can be bound again
+	if !r.serving && r.nserved > 0 && !r.abort {
+		r.do(sOp{Op: "Bind2"})
+		if l, err := svc.GetListener(); err == nil && l != nil {
+			l.Close() // (not an event of the execution: the scenario is over)
+		}
+	}
 	for _, l := range r.ls {
 		l.once.Do(func() { close(l.closed) }) // release anything still parked (not an event of the execution)
 	}
